@@ -815,7 +815,10 @@ asn1c_lang_C_type_SEx_OF(arg_t *arg) {
 	|| ((memb->expr_type == ASN_BASIC_ENUMERATED
 		|| (0 /* -- prohibited by X.693:8.3.4 */
 			&& memb->expr_type == ASN_BASIC_INTEGER))
-	    	&& expr_elements_count(arg, memb))) {
+	    	&& expr_elements_count(arg, memb))
+	/* The member table refers to the element's own descriptor (unsigned) */
+	|| (memb->expr_type == ASN_BASIC_INTEGER
+		&& asn1c_type_fits_long(arg, memb) == FL_FITS_UNSIGN)) {
 		arg_t tmp;
 		asn1p_expr_t *tmp_memb = memb;
 		enum asn1p_expr_marker_e flags = memb->marker.flags;
